@@ -327,6 +327,13 @@ class VersionsMachine(RuleBasedStateMachine):
         mc = self.mc
         self.orig_list_obj[:] = self.orig_records
         mc.KNOWN_MINECRAFT_VERSION_RECORDS = self.orig_list_obj
+        # The property speaks about *extending* the records.  Undoing the
+        # extension (removing records) is the harness's business, so the
+        # harness empties every table itself before the rebuild: the next
+        # case then starts from a state that is reachable by extension
+        # alone, whatever the library does about entries of removed records.
+        for n in TABLE_NAMES:
+            getattr(mc, n).clear()
         mc.SUPPORTED_MINECRAFT_VERSIONS.clear()
         mc.initglobals(use_known_records=True)
 
